@@ -800,11 +800,25 @@ func (g *sgen) split(items []*m.Item, schemaItem *m.Item) []*m.Item {
 				if it.Kind != "input" && len(it.Interfaces) > 0 && r.Bool() {
 					ext.Interfaces, it.Interfaces = it.Interfaces, nil
 				}
+				// a directive applied to the definition AND to its extension (nothing in the loader's rules forbids it)
+				if len(it.Dirs) > 0 && r.Chance(1, 8) {
+					ext.Dirs = append(ext.Dirs, it.Dirs[r.Intn(len(it.Dirs))])
+				}
 				out = append(out, ext)
 				if g.o.ExtOnly && r.Chance(1, 6) && !it.HasDesc {
 					// the base definition disappears: the type exists only through extensions
 					ext2 := &m.Item{Kind: it.Kind, Extend: true, Name: it.Name, Fields: it.Fields, Dirs: it.Dirs, Interfaces: it.Interfaces}
 					out[len(out)-2] = ext2
+					if it.Kind != "input" && len(ext2.Interfaces) > 0 && r.Bool() {
+						// ... through three extensions, one of them without a body (interfaces only), placed first or last
+						ext3 := &m.Item{Kind: it.Kind, Extend: true, Name: it.Name, Interfaces: ext2.Interfaces}
+						ext2.Interfaces = nil
+						if r.Bool() {
+							out = append(out, ext3)
+						} else {
+							out = append(out[:len(out)-2], append([]*m.Item{ext3}, out[len(out)-2:]...)...)
+						}
+					}
 				}
 			}
 		case "enum":
